@@ -50,6 +50,10 @@ pub enum Fault {
     Garbage { k: usize, seed: u64 },
     /// replace the image by raw PRNG bytes
     RawBytes { n: usize, seed: u64 },
+    /// overwrite `len` bytes at `at` with the same value (a whole tag / nonce / key slot zeroed or set to 0xFF)
+    Fill { at: usize, len: usize, val: u8 },
+    /// several edits of one image, applied in order
+    Multi { faults: Vec<Fault> },
 }
 
 /// One fully explicit simulated run (what a replay file carries)
@@ -306,9 +310,16 @@ pub fn shrink_case(prop: &dyn Prop, case: &Case, v: &Violation, tier: Tier, max_
         }
     }
     let mut evals = 0u64;
+    // minimisation never decides a verdict; it stops after max_evals candidates or a wall-clock allowance (cases
+    // that stream gigabytes cost tens of seconds per candidate), whichever comes first
+    let t0 = Instant::now();
+    let allowance = match tier {
+        Tier::Quick => 90,
+        Tier::Thorough => 300,
+    };
     'outer: loop {
         for cand in prop.shrink(&cur) {
-            if evals >= max_evals {
+            if evals >= max_evals || t0.elapsed().as_secs() > allowance {
                 break 'outer;
             }
             evals += 1;
